@@ -370,7 +370,7 @@ class Sim:
     def run_wait_events(self):
         evs, self.wait_events = self.wait_events, []
         for e in evs:
-            self.event(e)
+            self.event(e, nested=True)
 
     # ------------------------------------------------------------------ events
     def sock(self, k):
@@ -379,8 +379,8 @@ class Sim:
         c = self.conns[k]
         return self.conn_sock.get(c) or self.node.peer_sockets.get(c.ident)
 
-    def event(self, ev: str):
-        self.obs.append(f"EV {ev}")
+    def event(self, ev: str, nested: bool = False):
+        self.obs.append(f"{'EVN' if nested else 'EV'} {ev}")
         t = ev.split(" ")
         op = t[0]
         n = self.node
@@ -445,6 +445,10 @@ class Sim:
             if s is not None:
                 s.writable = t[2] == "0"
             self.settle()
+        elif op == "sethbh":
+            k = int(t[1])
+            if k < len(self.conns):
+                self.conns[k].hop_by_hop_seq._sequence = int(t[2])
         elif op == "dial":
             self.env.dial_plan += t[1].split(",")
         elif op == "conn":
@@ -475,7 +479,7 @@ class Sim:
             msg = Message.from_bytes(build_msg(t[2]))
             msg.header.hop_by_hop_identifier = 0
             timeout = int(t[3]) if len(t) > 3 else 30
-            self.wait_events = [x.replace("_", " ") for x in t[4:]]
+            self.wait_events = [x.replace("_", " ") if "_" in x else x.replace("~", " ") for x in t[4:]]
             try:
                 r = a.send_request(msg, timeout)
                 h = r.header
